@@ -101,3 +101,58 @@ Proof.
     lia.
   - rewrite fold_bytes_ok by exact B. lia.
 Qed.
+
+(* ------------------------------------------------------------------ div_ceil / round_up for negative n as well *)
+(** C++ truncating division: n / k + (n % k > 0) is the ceiling of n / k for every n (also negative) and k > 0 *)
+Definition ceil_quot (n k : Z) : Z := Z.quot n k + b2z (0 <? Z.rem n k).
+
+Lemma ceil_quot_spec : forall n k, 0 < k -> is_ceil_div n k (ceil_quot n k) /\ (0 <= n -> 0 <= ceil_quot n k <= n) /\ (n <= 0 -> n <= ceil_quot n k <= 0).
+Proof.
+  intros n k Hk. unfold is_ceil_div, ceil_quot.
+  assert (E := Z.quot_rem' n k).
+  destruct (Z.lt_ge_cases n 0) as [Hn | Hn].
+  - assert (B := Z.rem_bound_pos_neg n k Hk ltac:(lia)).
+    destruct (Z.ltb_spec 0 (Z.rem n k)); [lia |]. cbn [b2z].
+    assert (Q := Z.mul_quot_ge n k ltac:(lia) ltac:(lia)).
+    nia.
+  - assert (B := Z.rem_bound_pos_pos n k Hk Hn).
+    assert (0 <= Z.quot n k) by (apply Z.quot_pos; lia).
+    destruct (Z.ltb_spec 0 (Z.rem n k)); cbn [b2z]; nia.
+Qed.
+
+Lemma inrange_prom_any : forall t v, wf t -> inrange t v = true -> inrange (prom t) v = true.
+Proof.
+  intros t v Hw H. unfold prom. destruct (Z.ltb_spec (width t) 32) as [Hlt | Hge]; [| exact H].
+  apply inrange_iff in H. apply inrange_iff. assert (B := tmax_lt_pow t Hw). unfold wf in Hw.
+  assert (P : 2 ^ width t <= 2 ^ 31) by (apply Z.pow_le_mono_r; lia).
+  assert (Q : 0 < 2 ^ (width t - 1)) by (apply Z.pow_pos_nonneg; lia).
+  assert (E := pow2_double (width t) Hw).
+  assert (Tm : - 2 ^ 31 <= tmin t) by (unfold tmin; destruct (signed t); lia).
+  assert (Ti : tmin i32 = - 2 ^ 31) by reflexivity. assert (Ta : tmax i32 = 2 ^ 31 - 1) by reflexivity.
+  rewrite Ti, Ta. lia.
+Qed.
+
+Theorem div_ceil_round_up_any_sign : forall t n k, wf t ->
+  inrange t n = true -> inrange t k = true -> 0 < k ->
+  n <= div_ceil t n k * k < n + k /\
+  (inrange (prom t) (ceil_quot n k * k) = true ->
+     n <= round_up t n k < n + k /\ (k | round_up t n k)).
+Proof.
+  intros t n k Hw Hn Hk H1.
+  destruct (ceil_quot_spec n k H1) as (Hc & Hb1 & Hb2). unfold is_ceil_div in Hc.
+  assert (Ed : div_ceil t n k = ceil_quot n k).
+  { unfold div_ceil. fold (ceil_quot n k). apply wrapT_id; [now apply wf_prom |].
+    assert (Hp := inrange_prom_any t n Hw Hn). apply inrange_iff in Hp. apply inrange_iff.
+    assert (T := tmin_nonpos (prom t) (wf_prom t Hw)).
+    assert (0 <= tmax (prom t)) by (assert (X := tmax_prom t Hw); apply inrange_iff in Hk; lia). lia. }
+  split; [rewrite Ed; exact Hc |].
+  intros Hfit. unfold round_up. rewrite Ed, wrapT_id by (try apply wf_prom; assumption).
+  split; [exact Hc | exists (ceil_quot n k); reflexivity].
+Qed.
+
+Theorem div_ceil_round_up_any_sign_final : forall t n k, supported t ->
+  inrange t n = true -> inrange t k = true -> 0 < k ->
+  n <= div_ceil t n k * k < n + k /\
+  (inrange (prom t) (ceil_quot n k * k) = true ->
+     n <= round_up t n k < n + k /\ (k | round_up t n k)).
+Proof. intros t n k Hs. apply div_ceil_round_up_any_sign. now apply supported_wf. Qed.
